@@ -76,6 +76,18 @@ theorem be32_of_bytes (a b c d : UInt8) :
   exact ⟨n2b_eq_byte (by omega), n2b_eq_byte (by omega), n2b_eq_byte (by omega),
          n2b_eq_byte (by omega)⟩
 
+theorem be16_cons (v : Nat) (r : List UInt8) : be16 v ++ r = n2b (v / 256) :: n2b v :: r := rfl
+theorem be32_cons (v : Nat) (r : List UInt8) :
+    be32 v ++ r = n2b (v / 16777216) :: n2b (v / 65536) :: n2b (v / 256) :: n2b v :: r := rfl
+
+theorem W_n2b {v : Nat} (h : v < 65536) : (n2b (v / 256)).toNat * 256 + (n2b v).toNat = v := by
+  simp only [n2b_toNat]; omega
+
+theorem W4_n2b {v : Nat} (h : v < 4294967296) :
+    (n2b (v / 16777216)).toNat * 16777216 + (n2b (v / 65536)).toNat * 65536
+      + (n2b (v / 256)).toNat * 256 + (n2b v).toNat = v := by
+  simp only [n2b_toNat]; omega
+
 theorem be16_length (v : Nat) : (be16 v).length = 2 := rfl
 theorem be32_length (v : Nat) : (be32 v).length = 4 := rfl
 
